@@ -65,11 +65,13 @@ class KeyUniverse:
     deletes of present keys) and keys are prefix-related."""
 
     KINDS = ["adv", "adv", "adv", "chain", "fix3", "k32", "nibbly", "adv", "chain", "fix3", "k32", "nibbly", "k40",
-             "adv", "adv", "adv", "chain", "fix3", "k32", "nibbly", "adv", "chain", "fix3", "k32", "nibbly", "k40", "k200"]
+             "adv", "adv", "adv", "chain", "fix3", "k32", "nibbly", "adv", "chain", "fix3", "k32", "nibbly", "k40", "k200", "k600"]
 
     def __init__(self, rnd, kind=None):
         self.rnd = rnd
         self.kind = kind or rnd.choice(self.KINDS)
+        if kind is None and self.kind == "k600" and rnd.random() < 0.7:
+            self.kind = "adv"       # about 1 history in 90: they cost ten times the others
         self.pool32 = []
         if self.kind == "k32":
             base = bytes(rnd.randrange(256) for _ in range(32))
@@ -107,6 +109,16 @@ class KeyUniverse:
             for _ in range(rnd.randint(1, 4)):
                 i = rnd.randrange(n)
                 self.pool32.append(base[:i] + bytes([base[i] ^ rnd.choice([0x01, 0x10, 0x80])]) + base[i + 1:])
+        if self.kind == "k600":
+            # path-like keys of 500-700 bytes that differ only near the end: ONE extension node
+            # of more than a thousand nibbles (beyond any "no trie is that deep" figure such as
+            # the interpreter's recursion limit or 1024)
+            n = rnd.choice([501, 513, 600, 700])
+            base = bytes(rnd.randrange(256) for _ in range(n))
+            self.pool32 = [base, base + b"\x01", base[:-1] + bytes([base[-1] ^ 0x01]), base[:-1] + bytes([base[-1] ^ 0x10]),
+                           base[:-1], base[:n - 7] + b"\x55"]
+            i = rnd.randrange(n - 40, n)
+            self.pool32.append(base[:i] + bytes([base[i] ^ 0x80]) + base[i + 1:])
         if self.kind == "ladder":
             # every key is a prefix of one long key: with many of them stored the trie is a
             # ladder two nodes deep per byte - paths of far more than 64 nodes
@@ -121,7 +133,7 @@ class KeyUniverse:
             return key_adv(rnd)
         if k == "fix3":
             return key_fix3(rnd)
-        if k in ("k32", "k40", "k200"):
+        if k in ("k32", "k40", "k200", "k600"):
             return rnd.choice(self.pool32)
         if k == "nibbly":
             return key_nibbly(rnd)
